@@ -125,7 +125,18 @@ def run_scenario(job):
             # rerun through a new handle once the fault has cleared
             rerun = {'raised': '', 'present': [], 'allok': True, 'skipped': False}
             if scenario.repack and raised:
+                # an interrupted repack needs a manual repair: running it again may refuse, but must not make things worse
                 rerun['skipped'] = True
+                again = Container(folder)
+                try:
+                    scenario.op(again, contents)
+                except Exception as exc:  # noqa pylint: disable=broad-except
+                    rerun['raised'] = type(exc).__name__
+                finally:
+                    again.close()
+                obs_after, views_after = crash.examine(folder, contents, key_of)
+                lines.append({'point': k, 'kind': 'fault', 'flavour': flavour, 'ev': {**(injector.fired or {}), 'then': 'rerun'},
+                              'raised': True, 'exc': raised, 'obs': obs_after, 'views': views_after, 'rerun': dict(rerun)})
             else:
                 packdir = os.path.join(folder, 'packs')
                 for name in os.listdir(packdir):
